@@ -40,7 +40,7 @@ CHECKS.update({
  "C11": dict(engine="E1 detsched", technique=SCHED + "; liveness decided as a scheduler stuck-state", design="§4 C11",
    text="Handles of a slow stream dropped/unsubscribed while producers retry on a full queue; stuck producers, unsubscribe return values and collateral damage on remaining streams are checked."),
  "C14": dict(engine="E1 detsched + E2 seqmodel", technique=SCHED + "; deterministic futures executor; sequential notify oracle", design="§4 C14",
-   text="Sink/Stream tasks on a deterministic executor where NotReady blocks the thread until Notify::notify; a missed notification is a scheduler deadlock with a parked task that could progress. Sequential part: every call that makes progress possible for a parked task must have notified it."),
+   text="Sink/Stream tasks on a deterministic executor where NotReady blocks the thread until Notify::notify; a missed notification is a scheduler deadlock with a parked task that could progress. Sequential part: every call that makes progress possible for a parked task must have notified it. Hold sweep: for each generated scenario every thread is held at each of its first 400 scheduling points in turn until no other thread can make progress, then runs on."),
  "C16": dict(engine="E1 detsched + quarantine", technique=SCHED + "; freed blocks are quarantined and every instrumented access is checked against them", design="§4 C16",
    text="Stream/handle churn racing with writers scanning the stream list; any atomic access or dereference of bookkeeping memory that was already freed, any double or invalid free is reported."),
  "C17": dict(engine="E3 memacct", technique="property-based testing with a counting global allocator as oracle (generated teardown histories and churn loops)", design="§4 C17",
